@@ -92,7 +92,7 @@ var smFields = map[string][3]string{
 var smUnmodelled = map[string]bool{"syncPeerState": true, "startHeader": true}
 
 // peer methods: Go ↦ (Lean primitive, result kind); arguments are translated by position
-var smPeerMethods = map[string][2]string{"LastBlock": {"peerLastBlock", "int"}, "StartingHeight": {"peerStartingHeight", "int"},
+var smPeerMethods = map[string][2]string{"Connected": {"peerConnected", "bool"}, "LastBlock": {"peerLastBlock", "int"}, "StartingHeight": {"peerStartingHeight", "int"},
 	"Disconnect": {"peerDisconnect", "unit"}, "UpdateLastAnnouncedBlock": {"peerUpdateLastAnnouncedBlock", "unit"},
 	"UpdateLastBlockHeight": {"peerUpdateLastBlockHeight", "unit"}, "SetSyncPeer": {"peerSetSyncPeer", "unit"},
 	"PushGetHeadersMsg": {"peerPushGetHeadersMsg", "err"}}
